@@ -24,7 +24,7 @@ type c12Case struct {
 }
 
 var (
-	c12A = CfgLit{Origins: []string{"https://a.example", "https://*.a.example:*"}, Methods: []string{"PUT", "PATCH"}, RequestHeaders: []string{"X-A", "X-B"}, ResponseHeaders: []string{"X-R", "X-S"}, MaxAge: 30}
+	c12A = CfgLit{Origins: []string{"https://a.example", "https://*.a.example", "https://x.a.example:9", "https://*.b.a.example:*", "http://x.a.example"}, TolInsecure: true, Methods: []string{"PUT", "PATCH"}, RequestHeaders: []string{"X-A", "X-B"}, ResponseHeaders: []string{"X-R", "X-S"}, MaxAge: 30}
 	c12B = CfgLit{Origins: []string{"*"}, Methods: []string{"*"}, RequestHeaders: []string{"*", "Authorization"}, ResponseHeaders: []string{"*"}, MaxAge: -1, Status: 200}
 	c12D = CfgLit{Origins: []string{"https://e.example"}, Credentialed: true, Methods: []string{"*"}, RequestHeaders: []string{"*", "Authorization"}, MaxAge: -1}
 	c12E = CfgLit{Origins: []string{"*"}, Methods: []string{"*"}, RequestHeaders: []string{"*"}, ResponseHeaders: []string{"*"}}
